@@ -35,6 +35,17 @@ type Doc struct {
 
 	axisCache map[string]*sym.Term
 	Holes     map[string]*Hole
+
+	// OutsideClaim collects conditions under which the evaluated expression left
+	// the fragment the reference defines (e.g. string() of a non-integer); the
+	// obligation only binds where it is false.
+	OutsideClaim *sym.Term
+
+	// Hint evaluates a term under the current path's model (optional). It is used
+	// only to rewrite t as ite(t = c, c, t), which is equivalent to t for every c
+	// and lets the solver replace structure-determined subterms by constants.
+	Hint   func(t *sym.Term) sym.Val
+	Lemmas []*sym.Term
 }
 
 // Hole is a symbolic literal injected into the expression.
@@ -53,7 +64,7 @@ func unsupported(format string, a ...interface{}) {
 
 func NewDoc(c *sym.Ctx, N, A int, names, pool, prefixes, uris []string) *Doc {
 	d := &Doc{C: c, N: N, A: A, Names: names, Pool: pool, Prefixes: prefixes, URIs: uris,
-		index: map[Node]int{}, axisCache: map[string]*sym.Term{}, Holes: map[string]*Hole{}}
+		index: map[Node]int{}, axisCache: map[string]*sym.Term{}, Holes: map[string]*Hole{}, OutsideClaim: c.F}
 	if len(d.Prefixes) == 0 {
 		d.Prefixes = []string{""}
 	}
@@ -391,7 +402,36 @@ type Ctx struct {
 }
 
 func (d *Doc) numI(i *sym.Term) Val {
-	return Val{K: KNum, I: i, F: d.C.FpFromSBV(i)}
+	c := d.C
+	if d.Hint != nil && !i.IsConst() {
+		// substitute the value the model gives and record "i = k" as a lemma the
+		// caller must prove under the path condition before trusting the result
+		k := c.BVC(64, d.Hint(i).U)
+		d.Lemmas = append(d.Lemmas, c.Eq(i, k))
+		return Val{K: KNum, I: k, F: c.FpFromSBV(k)}
+	}
+	return Val{K: KNum, I: i, F: c.FpFromSBV(i)}
+}
+
+// stableB substitutes the model value of a Bool term (recording a lemma).
+func (d *Doc) stableB(t *sym.Term) *sym.Term {
+	if d.Hint == nil || t.IsConst() {
+		return t
+	}
+	k := d.C.BoolC(d.Hint(t).B())
+	d.Lemmas = append(d.Lemmas, d.C.Eq(t, k))
+	return k
+}
+
+// stableF substitutes the model value of an FP term that is determined by the
+// document structure (recording the equality as a lemma).
+func (d *Doc) stableF(t *sym.Term) *sym.Term {
+	if d.Hint == nil || t.IsConst() {
+		return t
+	}
+	k := d.C.FPC(d.Hint(t).F())
+	d.Lemmas = append(d.Lemmas, d.C.Eq(t, k))
+	return k
 }
 
 func (d *Doc) strConst(s string) Val {
@@ -695,9 +735,19 @@ func (d *Doc) evalBinary(e *Binary, cx Ctx) Val {
 		}
 		return Val{K: KNodeSet, NS: out}
 	case "or":
-		return Val{K: KBool, B: c.Or(d.Boolean(d.Eval(e.L, cx)), d.Boolean(d.Eval(e.R, cx)))}
+		// left to right with short-circuit: the right operand is not evaluated
+		// (and cannot raise) when the left one decides
+		l := d.Boolean(d.Eval(e.L, cx))
+		if l.IsTrue() {
+			return Val{K: KBool, B: c.T}
+		}
+		return Val{K: KBool, B: c.Or(l, d.Boolean(d.Eval(e.R, cx)))}
 	case "and":
-		return Val{K: KBool, B: c.And(d.Boolean(d.Eval(e.L, cx)), d.Boolean(d.Eval(e.R, cx)))}
+		l := d.Boolean(d.Eval(e.L, cx))
+		if l.IsFalse() {
+			return Val{K: KBool, B: c.F}
+		}
+		return Val{K: KBool, B: c.And(l, d.Boolean(d.Eval(e.R, cx)))}
 	case "+", "-", "*", "div", "mod":
 		l, r := d.Number(d.Eval(e.L, cx)), d.Number(d.Eval(e.R, cx))
 		switch e.Op {
@@ -787,6 +837,20 @@ func (d *Doc) caseEq(a, b StrCase) *sym.Term {
 	return c.And(conj...)
 }
 
+// CaseEq: two string cases denote the same bytes.
+func (d *Doc) CaseEq(a, b StrCase) *sym.Term { return d.caseEq(a, b) }
+
+// CaseConcrete renders a case under a model (ev evaluates a byte term).
+func (d *Doc) CaseConcrete(sc StrCase, ev func(*sym.Term) byte) string {
+	bs := []byte(sc.S)
+	for i := range bs {
+		if sc.B != nil && sc.B[i] != nil {
+			bs[i] = ev(sc.B[i])
+		}
+	}
+	return string(bs)
+}
+
 func (d *Doc) strEq(a, b []StrCase) *sym.Term {
 	c := d.C
 	var disj []*sym.Term
@@ -857,7 +921,7 @@ func (d *Doc) strToNum(s []StrCase) Val {
 		}
 		f = c.Ite(s[i].Cond, c.FPC(XPathNumber(s[i].S)), f)
 	}
-	return Val{K: KNum, F: f}
+	return Val{K: KNum, F: d.stableF(f)}
 }
 
 // compare implements the XPath 1.0 comparison rules.
@@ -996,8 +1060,23 @@ func (d *Doc) String(v Val) []StrCase {
 		out = append(out, StrCase{Cond: none, S: ""})
 		return out
 	}
-	unsupported("string() of a number")
-	return nil
+	// numbers: NaN, and integer values below 10^6 in magnitude (plain decimal, "0" for both zeros)
+	f := v.F
+	isNaN := c.FpIsNaN(f)
+	isInt := c.And(c.FpCmp(sym.OFpEq, c.FpRound(f, sym.RTZ), f), c.FpCmp(sym.OFpLt, c.FpAbs(f), c.FPC(1e6)))
+	out := []StrCase{{Cond: isNaN, S: "NaN"}}
+	neg := c.FpCmp(sym.OFpLt, f, c.FPC(0))
+	mag := c.FpToSBV(c.FpAbs(f))
+	guards, bytes := c.DecimalCases(mag, 6)
+	for k := range guards {
+		g := c.And(c.Not(isNaN), isInt, guards[k])
+		zeros := strings.Repeat("0", k+1)
+		out = append(out, StrCase{Cond: c.And(g, c.Not(neg)), S: zeros, B: bytes[k]})
+		out = append(out, StrCase{Cond: c.And(g, neg), S: "-" + zeros, B: append([]*sym.Term{nil}, bytes[k]...)})
+	}
+	// anything else is outside the claim: the obligation is vacuous there
+	d.OutsideClaim = c.Or(d.OutsideClaim, c.And(c.Not(isNaN), c.Not(isInt)))
+	return out
 }
 
 // Number: the XPath number() conversion.
@@ -1063,7 +1142,9 @@ func (d *Doc) evalCall(e *Call, cx Ctx) Val {
 			if a.IsFalse() {
 				continue
 			}
-			sum = c.Ite(a, c.FpBin(sym.OFpAdd, sum, d.strToNum(d.NodeStr(i)).F), sum)
+			// membership and each addend are structure-determined: substituting
+			// them lets the sum fold to a constant
+			sum = c.Ite(d.stableB(a), c.FpBin(sym.OFpAdd, sum, d.strToNum(d.NodeStr(i)).F), sum)
 		}
 		return Val{K: KNum, F: sum}
 	case "floor":
